@@ -11,6 +11,9 @@ mod c04;
 mod c15;
 mod c03;
 mod c02;
+mod c11;
+mod c12;
+mod c13;
 mod enc;
 mod out;
 mod redisx;
@@ -74,6 +77,9 @@ fn main() {
         "C04" => c04::run(&a),
         "C03" => c03::run(&a),
         "C02" => c02::run(&a),
+        "C11" => c11::run(&a),
+        "C12" => c12::run(&a),
+        "C13" => c13::run(&a),
         _ => {
             eprintln!("no harness for {}", prop);
             std::process::exit(2);
